@@ -5,6 +5,7 @@ from __future__ import annotations
 import ast
 
 from sa.cfg import CFG
+from sa.cfg import forward
 from sa.report import AnalysisError
 from sa.report import Result
 from sa.report import norm
@@ -298,6 +299,71 @@ def run(prog: Program, res: Result) -> None:
                         res.ok("C17.R1", f"{rel}:{node.line} Lexer.{name}", what, f"state {st}")
     res.floor("C17.R1", "state-function hand-overs", n_ret, 10)
 
+    # ---------------------------------------------------------------- R1c: nothing is scanned between a token's end and the resync
+    res.rule("C17.R1c", "after a top-level token is appended with stop=self.pos, self.pos does not move again before self.start is re-synchronised: the next token starts exactly where this one stops (no gap)")
+    advancing: set[str] = set()
+    changed = True
+    while changed:
+        changed = False
+        for mname, mf in lm.methods.items():
+            if mname in advancing:
+                continue
+            for x in ast.walk(mf.node):
+                direct = isinstance(x, (ast.AugAssign, ast.Assign)) and any(_is_self_attr(t, "pos") for t in ([x.target] if isinstance(x, ast.AugAssign) else x.targets))
+                via = isinstance(x, ast.Call) and isinstance(x.func, ast.Attribute) and _is_self_attr(x.func, x.func.attr) and x.func.attr in advancing
+                if direct or via:
+                    advancing.add(mname)
+                    changed = True
+                    break
+    res.stats["pos_advancing_methods"] = sorted(advancing)
+    n_emit = 0
+    for name in sorted(state_fns):
+        f = lexer.methods[name]
+        cfg = lm.cfg(name)
+
+        def _emits(nd: ast.AST) -> bool:
+            return any(isinstance(c, ast.Call) and isinstance(c.func, ast.Attribute) and c.func.attr == "append" and _is_self_attr(c.func.value, "markup") for c in ast.walk(nd))
+
+        def _syncs(nd: ast.AST) -> bool:
+            if isinstance(nd, ast.Assign) and any(_is_self_attr(t, "start") for t in nd.targets) and _is_self_attr(nd.value, "pos"):
+                return True
+            return any(isinstance(c, ast.Call) and isinstance(c.func, ast.Attribute) and _is_self_attr(c.func, c.func.attr) and c.func.attr in resync for c in ast.walk(nd))
+
+        def _advances(nd: ast.AST) -> str | None:
+            for x in ast.walk(nd):
+                if isinstance(x, (ast.AugAssign, ast.Assign)) and any(_is_self_attr(t, "pos") for t in ([x.target] if isinstance(x, ast.AugAssign) else x.targets)):
+                    return norm(x, 50)
+                if isinstance(x, ast.Call) and isinstance(x.func, ast.Attribute) and _is_self_attr(x.func, x.func.attr) and x.func.attr in advancing and x.func.attr not in resync:
+                    return norm(x, 50)
+            return None
+
+        moved: dict[int, str] = {}
+
+        def tr(n, st, label):  # noqa: ANN001, ANN202
+            if n.node is None or n.kind not in ("stmt", "test") or label == "exc":
+                return st
+            cur = st
+            if cur == "emitted":
+                adv = _advances(n.node)
+                if adv is not None and not _emits(n.node):
+                    moved.setdefault(n.id, adv)  # noqa: B023
+            if _emits(n.node):
+                cur = "emitted"
+            if _syncs(n.node):
+                cur = "clean"
+            return cur
+
+        forward(cfg, "clean", tr, lambda a, b: "emitted" if "emitted" in (a, b) else "clean")
+        for n in cfg.nodes:
+            if n.kind == "stmt" and n.node is not None and _emits(n.node):
+                n_emit += 1
+        for nid, adv in sorted(moved.items()):
+            n = cfg.nodes[nid]
+            res.fail("C17.R1c", file=rel, line=n.line, qualname=f"Lexer.{name}", construct=f"`{adv}` after a token was appended and before the resync", message=f"Lexer.{name} advances self.pos (`{adv}`) after appending a token whose stop was taken from self.pos and before self.start is re-synchronised: the skipped characters belong to no token (gap between this token's stop and the next token's start)", what=f"Lexer.{name}: no scan between emission and resync")
+        if not moved:
+            res.ok("C17.R1c", f"{rel}:{f.node.lineno} Lexer.{name}", f"Lexer.{name}: no scan between a token emission and the resync", "pos is final when the token is built")
+    res.floor("C17.R1c", "top-level token emissions", n_emit, 6)
+
     # ---------------------------------------------------------------- R1b: constructor arguments
     res.rule("C17.R1b", "every token appended to self.markup is built with start in {self.start, self.markup_start} and stop = self.pos; markup_start is copied from self.start before start moves")
     n_tok = 0
@@ -448,6 +514,40 @@ def run(prog: Program, res: Result) -> None:
     res.floor("C17.R2", "ErrorToken constructions", n_err, 5)
 
     progress_rule(prog, res, lexer, lm, state_fns)
+
+    # ---------------------------------------------------------------- R4: who may build tokens
+    res.rule("C17.R4", "tokens are built by the lexer only; a token built anywhere else either carries no position (index/start = -1, the shared end-of-input token) or copies .start/.index from an existing token - never a .stop or a computed offset, which can lie one past the last character")
+    tok_classes = {c.name for c in prog.subclasses("liquid2.token.TokenT")}
+    res.floor("C17.R4", "token classes", len(tok_classes), 10)
+    n_out = 0
+
+    def _pos_ok(v: ast.AST) -> bool:
+        if isinstance(v, ast.UnaryOp) and isinstance(v.op, ast.USub) and isinstance(v.operand, ast.Constant) and v.operand.value == 1:
+            return True
+        if isinstance(v, ast.Attribute) and v.attr in ("start", "index"):
+            return True
+        return False
+
+    for m_ in prog.modules.values():
+        if m_.relpath == lexer.file:
+            continue
+        for c in ast.walk(m_.tree):
+            if not (isinstance(c, ast.Call) and isinstance(c.func, (ast.Name, ast.Attribute)) and (dotted(c.func) or "").split(".")[-1] in tok_classes):
+                continue
+            n_out += 1
+            q = prog.qual_at(m_, c)
+            kw = {k.arg: k.value for k in c.keywords if k.arg in ("index", "start")}
+            what = f"`{norm(c, 70)}` outside the lexer carries no position of its own"
+            bad = [f"{k}={norm(v)}" for k, v in kw.items() if not _pos_ok(v)]
+            if c.args:
+                bad.append("positional arguments")
+            if not kw and not c.args:
+                bad.append("no index/start given")
+            if bad:
+                res.fail("C17.R4", file=m_.relpath, line=c.lineno, qualname=q, construct=f"{norm(c.func)}({', '.join(bad)}) outside the lexer", message=f"a token is built outside the lexer with {', '.join(bad)}: its position is not one the lexer produced (e.g. <last token>.stop == len(source)), so an error raised with it points outside the source", what=what)
+            else:
+                res.ok("C17.R4", f"{m_.relpath}:{c.lineno} {q}", what, ", ".join(f"{k}={norm(v)}" for k, v in kw.items()))
+    res.floor("C17.R4", "token constructions outside the lexer", n_out, 1)
 
 
 def _definitely_advanced(lm: "LexerModel", name: str, call: ast.Call) -> bool:
